@@ -1,6 +1,7 @@
 #!/bin/bash
-# all kept seeded changes must be reported, all kept behaviour-preserving changes must stay silent (run from any copy of this tree)
+# kept behaviour-preserving changes must stay silent, kept seeded changes must be reported (run from any copy of this tree)
+# usage: regress_all.sh [seed-name prefixes ...]   (default: every kept seed)
 here=$(cd "$(dirname "$0")/.." && pwd)
 cd $here
-JOBS=${JOBS:-3} tools/seed_regress.py > /verif/out/seed_regress_latest.txt 2>&1; echo "seed_regress exit=$?"
-JOBS=${JOBS:-3} tools/neutral_regress.py > /verif/out/neutral_regress_latest.txt 2>&1; echo "neutral_regress exit=$?"
+tools/neutral_regress.py > /verif/out/neutral_regress_latest.txt 2>&1; echo "neutral_regress exit=$?"
+JOBS=${JOBS:-3} tools/seed_regress.py "$@" > /verif/out/seed_regress_latest.txt 2>&1; echo "seed_regress exit=$?"
